@@ -399,6 +399,8 @@ struct Engine {
     armed_fatal: Vec<bool>,
     now_ms: u64,
     steps: u64,
+    /// times the kernel was given real time before a stranded connection would have been reported
+    kernel_grace: u32,
     labels: Vec<&'static str>,
     aborted: Option<String>,
 }
@@ -468,7 +470,7 @@ impl Engine {
             zombie_finished: false,
         };
         let n = c.listeners.len();
-        Ok(Engine { stepped, wq, model: Rc::new(RefCell::new(model)), addrs, fds, backoff: vec![None; n], armed_fatal: vec![false; n], now_ms: 0, steps: 0, labels: vec![], aborted: None })
+        Ok(Engine { stepped, wq, model: Rc::new(RefCell::new(model)), addrs, fds, backoff: vec![None; n], armed_fatal: vec![false; n], now_ms: 0, steps: 0, kernel_grace: 0, labels: vec![], aborted: None })
     }
 
     fn label(&mut self, l: &'static str) {
@@ -679,7 +681,38 @@ impl Engine {
     }
 
     /// the quiescent-state oracle: spare capacity + waiting connection + nothing left to process
+    /// would the quiescent-state oracle report a stranded connection now?
+    fn stranded_now(&self) -> bool {
+        let m = self.model.borrow();
+        if m.stopped || m.sut_paused || !m.pending_ctl.is_empty() {
+            return false;
+        }
+        if !(0..m.workers.len()).any(|w| m.workers[w].alive && m.workers[w].in_rotation && m.load(w) < m.limit) {
+            return false;
+        }
+        (0..m.backlog.len()).any(|l| !m.backlog[l].is_empty() && !self.backoff[l].map(|t| self.now_ms < t + 510).unwrap_or(false))
+    }
+
+    /// The oracle rests on "a connect() that has returned is visible to a zero-timeout poll of the
+    /// listener". Under load the last ACK of a loopback handshake can be processed a moment later
+    /// (softirq deferred): before a stranded connection is reported the kernel gets a few
+    /// milliseconds of real time and the loop is stepped again. A late arrival raises a readiness
+    /// event and is accepted then; a connection the loop has really lost stays where it is.
     fn check_quiescent(&mut self, after_drain: bool) {
+        for ms in [2u64, 10, 50] {
+            if !self.stranded_now() {
+                break;
+            }
+            std::thread::sleep(Duration::from_millis(ms));
+            self.kernel_grace += 1;
+            if !self.quiesce() {
+                return;
+            }
+        }
+        self.check_quiescent_now(after_drain)
+    }
+
+    fn check_quiescent_now(&mut self, after_drain: bool) {
         let mut m = self.model.borrow_mut();
         if m.stopped || m.sut_paused || !m.pending_ctl.is_empty() {
             return;
@@ -981,6 +1014,7 @@ async fn run_async(c: &Case, prop: Prop) -> CaseResult {
     let mut obs = Obs::new();
     let labels = e.labels.clone();
     let aborted = e.aborted.clone();
+    let kernel_grace = e.kernel_grace;
     let model = e.model.clone();
     drop(e);
     for p in paths {
@@ -1066,6 +1100,7 @@ async fn run_async(c: &Case, prop: Prop) -> CaseResult {
         obs.label(l);
     }
     obs.label_if(aborted.is_some(), "aborted");
+    obs.label_if(kernel_grace > 0, "late-handshake-grace");
     obs.label_if(m.race_done > 0, "race-done");
     obs.label_if(m.rr_checked as usize > m.workers.len() && m.workers.len() >= 2, "rr-checked>W");
     obs.label_if(m.limit_constrained, "limit-constrained");
